@@ -1,9 +1,22 @@
 """Kernel specs for C10: the branching relative log difference of optimism/TensorMath.py (its two branches are re-listed under
-new Coq names so that this module is self-contained; the sqrt/exp kernels and the unbranched log kernels live in module
-TensorMathFun, 12_c12.py) -- the safe_sqrt JVP body is in module Math (00_base.py)."""
+new Coq names so that this module is self-contained; the sqrt/exp kernels, the unbranched log kernels and the argsort-based
+_log_relative_difference / _pow_relative_difference live in module TensorMathFun, 12_c12.py) -- the safe_sqrt JVP body is in
+module Math (00_base.py).
+
+Module TensorMathJVP: the WHOLE body of _symmetric_matrix_function_jvp_helper (the x2 == x1 guard, the divided-difference matrix,
+W = V^T sym(Cdot) V, h *= W, the symmetrised V[i]^T h V[j] entries).  Its function-valued parameters `func` and
+`relative_difference` are oracle parameters, jax.jacfwd(func) is the oracle `dfunc` (its derivative), eigen_sym33_unit is an
+opaque function returning (lam : V3, V : M33) -- the eigh contract is a hypothesis of the theorems, the eigen-solver itself is C12's."""
 SPECS = [
     dict(name='TensorMathAD', file='optimism/TensorMath.py',
          funcs=[('_relative_log_difference_taylor', ['S', 'S'], dict(coq_name='ad_rel_log_taylor')),
                 ('_relative_log_difference_no_tolerance_check', ['S', 'S'], dict(coq_name='ad_rel_log_plain')),
                 ('_relative_log_difference', ['S', 'S'], dict(coq_name='ad_rel_log'))]),
+    dict(name='TensorMathJVP', file='optimism/TensorMath.py',
+         funcs=[('sym', ['M33'], dict(coq_name='jh_sym')),
+                ('_symmetric_matrix_function_jvp_helper', ['FN', 'FN', 'TUP(M33)', 'TUP(M33)'],
+                 dict(coq_name='jvp_helper_gen',
+                      oracles=[('func', 1, 1), ('relative_difference', 2, 1), ('dfunc', 1, 1)],
+                      derivs={'func': 'dfunc'},
+                      opaque=[('eigen_sym33_unit', 'eigh', ['M33'], 'TUP(V3,M33)')]))]),
 ]
